@@ -343,7 +343,7 @@ def _worker(job):
         for k, d in res:
             s.fail(k, c, d)
 
-    H.hyp_run(strat, body, n, seed)
+    H.hyp_run(strat, body, n, seed, stats=s)
     return s
 
 
